@@ -195,6 +195,30 @@ def write_coqproject():
     return False
 
 
+def pregen_all():
+    """Regenerate every translator-produced file (coq/Gen/*.v) from REPO's
+    current working tree: each checks/c*.py may define pregen() which writes
+    its own coq/Gen/<Name>.v. Runs before every make (all of them, because
+    the development is built as one project)."""
+    import importlib
+    sys.path.insert(0, os.path.join(VERIF, "checks"))
+    os.makedirs(os.path.join(COQ, "Gen"), exist_ok=True)
+    with Lock("gen"):
+        for f in sorted(glob.glob(os.path.join(VERIF, "checks", "c*.py"))):
+            mod = importlib.import_module(os.path.basename(f)[:-3])
+            if hasattr(mod, "pregen"):
+                mod.pregen()
+
+
+def write_if_changed(path, txt):
+    old = open(path).read() if os.path.exists(path) else None
+    if old != txt:
+        with open(path, "w") as fh:
+            fh.write(txt)
+        return True
+    return False
+
+
 def coq_make():
     """Full (incremental) .vo build of the development; never -vos."""
     global _coq_made
